@@ -44,6 +44,7 @@ Record wcase := {
   w_maxi : Z;
   w_maxs : Z;
   w_fatal : bool;
+  w_abs : option (list N);                         (* StoreAbsolutePath: the scan root's path *)
   w_cancel : cancel;
   w_dets : list (list N * list finding);            (* detectors given to scalibr.Scan: name, findings returned *)
   w_group : N;                                     (* C08: cases with the same non-zero group are listings of the same content *)
@@ -81,6 +82,7 @@ Definition cfg_of_case (w : wcase) : cfg := {|
   c_max_inodes := w_maxi w;
   c_max_size := w_maxs w;
   c_fatal := w_fatal w;
+  c_abs := w_abs w;
   c_cancel := w_cancel w |}.
 
 (* ------------------------------------------------------------------ boolean equalities *)
@@ -353,6 +355,7 @@ Definition trav_fault_spec (c : cfg) (t : node) : bool :=
                     match lookup_from t q with
                     | Some (Dir _ ch df) =>
                         df_open df || match df_read_at df with Some k => (k <=? length ch)%nat | None => false end
+                        || (c_gitignore c && negb (gi_child_ok ch))    (* its .gitignore cannot be read *)
                     | _ => false
                     end) (dirs_of [] t).
 
